@@ -184,6 +184,17 @@ class Env:
                 self.violated.setdefault(label, info)
 
 
+def reproduced(env, label):
+    """label of the violation the concrete run shows for a solver counterexample: the same predicate, or - when the
+    symbolic run ended in an exception (e.g. the facade refuses a cast that numpy performs silently) - any predicate of
+    the same oracle that the real run violates"""
+    if label in env.violated:
+        return label
+    if env.violated and (label in ("query_succeeds", "query_terminates_without_error") or label.startswith("unexpected_exception")):
+        return sorted(env.violated)[0]
+    return None
+
+
 # --------------------------------------------------------------------------
 # strategy adapters
 # --------------------------------------------------------------------------
@@ -306,10 +317,11 @@ def replay_query(inputs, label, prop, strat, n, mode, b):
                 return True, f"{strat} n={n} mode={mode} b={b}: {e!r}"
             raise
         check_result(env, prop, out, s, b, selection=a.selection)
-        if label in env.violated:
+        got = reproduced(env, label)
+        if got:
             return True, (f"{strat}(random_state={seed}).query(X={s.X.ravel().tolist()}, labeled={s.lab}, "
                           f"candidates={s.cand if mode != 'rows' else s.cand.ravel().tolist()}, batch_size={b}) -> "
-                          f"{_short(out)} violates {label} {env.violated[label]}")
+                          f"{_short(out)} violates {got} {env.violated[got]}")
     return False, "not reproduced"
 
 
